@@ -152,7 +152,17 @@ def templates(tier, seed):
     tds.append(dict(fam="empty", kinds=["point"], border=5, scale="1", root=""))
     tds.append(dict(fam="empty", kinds=["defs"], border=5, scale="1", root='width="10"'))
     tds.append(dict(fam="rootextra", kinds=["rect"], border=5, scale="1", root='version="2.0" xmlns:xlink="http://www.w3.org/1999/xlink" id="top"'))
-    return tds
+    tds.append(dict(fam="rootextra", kinds=["circle"], border=5, scale="1", root='version="1.2" baseProfile="tiny"'))
+    return tds + _with_cfgforms(tds)
+
+
+def _with_cfgforms(tds):
+    out = []
+    for i, t in enumerate(tds):
+        if (t.get("border") != 5 or t.get("scale") != "1") and i % 6 == 0:
+            for cf in ("split", "split-rev", "then-unrelated", "unrelated-first"):
+                out.append(dict(t, cfgform=cf))
+    return out
 
 
 def twins(tier, seed):
@@ -222,6 +232,16 @@ def build(td, wrong=False):
     cfg = ""
     if td["border"] != 5 or td["scale"] != "1":
         cfg = f'<config border="{td["border"]}" scale="{td["scale"]}"/>'
+        # settings may arrive through several <config> elements: each one changes what it names and nothing else
+        cf = td.get("cfgform", "one")
+        if cf == "split":
+            cfg = f'<config border="{td["border"]}"/><config scale="{td["scale"]}"/>'
+        elif cf == "split-rev":
+            cfg = f'<config scale="{td["scale"]}"/><config border="{td["border"]}"/>'
+        elif cf == "then-unrelated":
+            cfg = cfg + '<config font-size="4"/><config loop-limit="500"/>'
+        elif cf == "unrelated-first":
+            cfg = '<config var-limit="2000"/>' + cfg
     root = td["root"]
     if root is None:
         doc = "".join(parts)
@@ -319,5 +339,5 @@ def build(td, wrong=False):
                 obls.append(Obl(f"{dim}-unit-mm", PASS if unit == "mm" else FAIL, ground=True, note=unit))
                 obls.append(Obl(dim, and_(anyvalid, ne(got, mul(D, scale)))))
         return obls
-    name = f"{td['fam']}/{'+'.join(td['kinds'])}/b{td['border']}/s{td['scale']}/{root}"
+    name = f"{td['fam']}/{'+'.join(td['kinds'])}/b{td['border']}/s{td['scale']}/{root}" + (f"/{td['cfgform']}" if td.get("cfgform") else "")
     return Template(name, doc, vars_, check, family=td["fam"], role=f"C08/{'+'.join(sorted(set(td['kinds'])))}", cap=12)
